@@ -193,7 +193,17 @@ def c08(cfg):
                 seen_sigs.add(sig + ":raised")
                 rec.direct_violation(name, sig + f":raised-{type(e).__name__}", {"exception": f"{type(e).__name__}: {e}"[:300], "where": where})
             return
-        lib_states = den.act_expr(lib.as_expr() if hasattr(lib, "as_expr") else lib)
+        try:
+            lib_states = den.act_expr(lib.as_expr() if hasattr(lib, "as_expr") else lib)
+        except symc.SymbolicDivisionByZero as e:
+            # the library's result has a pole AT a concrete boundary occupation (the reference word is regular there): same class as a
+            # wrong value that shows only at the boundary occupations
+            bsig = sig + ":only-at-boundary-occupation"
+            n_obl += 1
+            if bsig not in seen_sigs:
+                seen_sigs.add(bsig)
+            rec.direct_violation(name + " [library result singular at boson occupation 0 or 1]", bsig, {"case": name, "boundary": True, "error": str(e)[:200]}, reproduced=True)
+            return
         cl, cl_boundary = den.clauses_split(lib_states, ref_states)
         n_obl += 1
         if sig in seen_sigs and cl:
